@@ -49,6 +49,15 @@ RULE += (" Added after the white-box review: "
          "channel gains down to 1e-12, real pilots with a complex "
          "channel ")
 
+RULE += (" Added after the second white-box review: up to two shift "
+         "windows of kept taps (and channels longer than N/D) when the "
+         "occupied shifts leave room; profiles 'steep' (last tap 1e-5..1e-9 "
+         "of the first) and 'antgain' (every further antenna 1e-2..1e-4 "
+         "weaker) with a per-antenna error bound; the user's sequence is "
+         "re-read after the estimator used it; the same observation is "
+         "estimated twice; keyword defaults (normalize, extra_dimension) "
+         "are left to the library in part of the cases. ")
+
 LEVEL_TEXT = ("Exhaustive enumeration of all requested sizes 12, 24, 25..1200 "
               "for the prime selection, cyclic extension and shift "
               "orthogonality (CAZAC identities for sampled roots per size), "
@@ -294,6 +303,13 @@ def _check_cazac(case, ctx):
 def _user_seq(kind, root_seq, n_cs, normalize, cover=None):
     from pyphysim.reference_signals.dmrs import DmrsUeSequence
     from pyphysim.reference_signals.srs import SrsUeSequence
+    if normalize is False and n_cs % 2 == 1:
+        # the documented default (normalize=False) left to the library
+        if kind == "srs":
+            return SrsUeSequence(root_seq, n_cs)
+        if cover is None:
+            return DmrsUeSequence(root_seq, n_cs)
+        return DmrsUeSequence(root_seq, n_cs, cover_code=np.array(cover))
     if kind == "srs":
         return SrsUeSequence(root_seq, n_cs, normalize=normalize)
     if cover is None:
@@ -416,7 +432,7 @@ def _seq_params(draw, kind):
     return D, m, N, root
 
 
-_PROFILES = ["gauss", "gauss", "edge", "last", "decay"]
+_PROFILES = ["gauss", "gauss", "edge", "last", "decay", "steep", "antgain"]
 
 
 def _chan(draw, lmax, tight_at=None):
@@ -428,15 +444,28 @@ def _chan(draw, lmax, tight_at=None):
                                                 -9, -12])))
 
 
+def _keep_st(W, D, dshifts):
+    """number of kept taps minus one.  One shift window (N/D taps) when a
+    neighbouring shift is occupied; up to two windows when the occupied
+    shifts leave room (an interferer d shifts away fills taps from d*W or
+    from (D-d)*W on, whatever the direction of the shift)."""
+    gap = min([min(d, D - d) for d in dshifts] + [D])
+    hi = min(gap, 2) * W - 1
+    base = st.one_of(st.just(W - 1), st.integers(0, W - 1))
+    if hi > W - 1:
+        return st.one_of(base, base, st.integers(W, hi), st.just(hi))
+    return base
+
+
 @st.composite
 def _est_cases(draw, tier):
     kind = draw(st.sampled_from(["srs", "dmrs"]))
     D, m, N, root = draw(_seq_params(kind))
     W = N // D
-    K = draw(st.one_of(st.just(W - 1), st.integers(0, W - 1)))
     nmax = 3 if tier == "quick" else D - 1
     dshifts = draw(st.lists(st.integers(1, D - 1), unique=True, min_size=0,
                             max_size=nmax))
+    K = draw(_keep_st(W, D, dshifts))
     normalize = draw(st.booleans())
     return dict(
         part="est", kind=kind, N=N, root=root, n_cs=draw(st.integers(0, D - 1)),
@@ -452,10 +481,10 @@ def _est_cases(draw, tier):
 def _occ_cases(draw, tier):
     D, m, N, root = draw(_seq_params("dmrs"))
     W = N // D
-    K = draw(st.one_of(st.just(W - 1), st.integers(0, W - 1)))
     nmax = 3 if tier == "quick" else 8
     keys = draw(st.lists(st.tuples(st.integers(0, D - 1), st.integers(0, 3)),
                          unique=True, min_size=0, max_size=nmax))
+    K = draw(_keep_st(W, D, [d for d, _ in keys if d]))
     others = []
     for d, c in keys:
         lmax = W if d else min(N, 2 * W + 3)
@@ -480,6 +509,14 @@ def _taps(ch, nr):
         h[:, :L - 1] = 0
     elif prof == "decay":
         h = h * np.exp(-np.arange(L) / (1.0 + L / 4.0))[np.newaxis, :]
+    elif prof == "steep" and L > 1:
+        # the last tap is 1e-5 .. 1e-9 of the first one
+        d = (5.0 + ch["seed"] % 5) / (L - 1)
+        h = h * (10.0 ** (-d * np.arange(L)))[np.newaxis, :]
+    elif prof == "antgain":
+        # every further antenna is 1e-2 .. 1e-4 of the one before
+        d = 2.0 + ch["seed"] % 3
+        h = h * (10.0 ** (-d * np.arange(nr)))[:, np.newaxis]
     return h * (10.0 ** ch["scale_exp"])
 
 
@@ -502,11 +539,48 @@ def _est_labels(ctx, part, case, W):
         ctx.label(part + ":L=K+1(tight)")
     if case["K"] + 1 == W:
         ctx.label(part + ":K+1=N/D(tight)")
+    if case["K"] + 1 > W:
+        ctx.label(part + ":K+1>N/D(neighbour shifts free)")
+        if L > W:
+            ctx.label(part + ":L>N/D")
     if any(o["L"] == W and o["dshift"] for o in case["others"]):
         ctx.label(part + ":interferer_fills_window")
     if L == 1:
         ctx.label(part + ":flat_channel")
     ctx.nontrivial((L >= 2 and n_int >= 1) or N > 1009)
+
+
+def _after_estimate(ctx, part, r0_before, r0_after, out, again, tags):
+    """the user's sequence is the same after the estimator used it (the
+    next pilot slot is built from it), and the same observation gives the
+    same estimate again"""
+    if r0_after.shape != r0_before.shape or \
+            not np.array_equal(r0_after, r0_before):
+        raise Violation("user_sequence_modified", "the user sequence "
+                        "(seq_array()) differs after the estimator was "
+                        "built from it and used: amplitude %.6g -> %.6g" %
+                        (float(np.abs(r0_before).max()),
+                         float(np.abs(r0_after).max())), tags)
+    if again is not None:
+        ctx.label(part + ":same_observation_twice")
+        if again.shape != out.shape or not np.array_equal(again, out):
+            raise Violation("estimate_not_repeatable", "the same observation "
+                            "and tap count gave another estimate the second "
+                            "time (max difference %.3e)" %
+                            (float(np.max(np.abs(again - out)))
+                             if again.shape == out.shape else math.nan), tags)
+
+
+def _per_antenna(ctx, name, out, want, srow, tags):
+    """the estimator works antenna by antenna: every antenna's estimate is
+    exact relative to what that antenna received"""
+    if out.ndim != 2:
+        return
+    err = np.linalg.norm(out - want, axis=1)
+    a = int(np.argmax(err - 1e-10 * srow))
+    ctx.close(name, float(err[a]), 1e-10 * float(srow[a]),
+              "antenna %d of %d (that antenna's scale %.3e, all %.3e)" %
+              (a, out.shape[0], float(srow[a]), float(srow.sum())), tags)
 
 
 def _check_est(case, ctx):
@@ -542,6 +616,8 @@ def _check_est(case, ctx):
     H0_full = np.fft.fft(h0, m * N, axis=1)
     Y = H0_full[:, ::m] * r0[np.newaxis, :]
     scale = float(np.linalg.norm(H0_full))
+    srow = np.linalg.norm(H0_full, axis=1)
+    r0_before = r0.copy()
     for o in case["others"]:
         n_u = (case["n_cs"] + o["dshift"]) % D
         with _tagged(tags):
@@ -551,6 +627,7 @@ def _check_est(case, ctx):
         Hu_full = np.fft.fft(hu, m * N, axis=1)
         Y = Y + Hu_full[:, ::m] * ru[np.newaxis, :]
         scale += float(np.linalg.norm(Hu_full))
+        srow = srow + np.linalg.norm(Hu_full, axis=1)
 
     # the root sequence object was shared by all users built above: it must
     # still have unit amplitude, and every user sequence the documented
@@ -584,10 +661,17 @@ def _check_est(case, ctx):
                 float(np.max(np.abs(Yin)) + 1.0)
             est.estimate_channel_freq_domain(Yw, W - 1)
         out = np.asarray(est.estimate_channel_freq_domain(Yin, K))
+        again = None
+        if (root + K) % 3 == 0:
+            out = out.copy()
+            again = np.asarray(est.estimate_channel_freq_domain(Yin, K))
+        r0_after = np.asarray(useq.seq_array())
     want = H0_full[0] if nr == 0 else H0_full
     if out.shape != want.shape:
         raise Violation("est_shape", "estimate shape %r, expected %r" %
                         (out.shape, want.shape), tags)
+    _after_estimate(ctx, "est", r0_before, r0_after, out, again, tags)
+    _per_antenna(ctx, "est_exact_per_antenna", out, want, srow, tags)
     ctx.close("est_exact", float(np.linalg.norm(out - want)), 1e-10 * scale,
               "%s N=%d root=%d shift=%d mult=%r nr=%d K=%d L=%d others=%r "
               "(scale %.3e)" % (kind, N, root, case["n_cs"], mult, nr, K,
@@ -628,6 +712,8 @@ def _check_occ(case, ctx):
     H0 = np.fft.fft(h0, N, axis=1)                 # (nrr, N)
     Y = H0[:, np.newaxis, :] * r0[np.newaxis, :, :]
     scale = float(np.linalg.norm(H0))
+    srow = np.linalg.norm(H0, axis=1)
+    r0_before = r0.copy()
     for i, o in enumerate(case["others"]):
         n_u = (case["n_cs"] + o["dshift"]) % D
         cov = COVERS[o["cover"]] if o["dshift"] else \
@@ -638,6 +724,7 @@ def _check_occ(case, ctx):
         Hu = np.fft.fft(_taps(o, nrr), N, axis=1)
         Y = Y + Hu[:, np.newaxis, :] * ru[np.newaxis, :, :]
         scale += float(np.linalg.norm(Hu))
+        srow = srow + np.linalg.norm(Hu, axis=1)
 
     if nr == 0:
         Yin = Y[0]
@@ -650,12 +737,25 @@ def _check_occ(case, ctx):
     Yin = np.ascontiguousarray(Yin)
     with _tagged(tags):
         est = CazacBasedWithOCCChannelEstimator(useq)
-        out = np.asarray(est.estimate_channel_freq_domain(
-            Yin, K, extra_dimension=case["extra_dimension"]))
+        if case["extra_dimension"] and (root + K) % 2 == 0:
+            # the documented default layout, keyword left to the library
+            ctx.label("occ:extra_dimension_default_omitted")
+            out = np.asarray(est.estimate_channel_freq_domain(Yin, K))
+        else:
+            out = np.asarray(est.estimate_channel_freq_domain(
+                Yin, K, extra_dimension=case["extra_dimension"]))
+        again = None
+        if (root + K) % 3 == 0:
+            out = out.copy()
+            again = np.asarray(est.estimate_channel_freq_domain(
+                Yin, K, extra_dimension=case["extra_dimension"]))
+        r0_after = np.asarray(useq.seq_array())
     want = H0[0] if nr == 0 else H0
     if out.shape != want.shape:
         raise Violation("est_shape", "OCC estimate shape %r, expected %r" %
                         (out.shape, want.shape), tags)
+    _after_estimate(ctx, "occ", r0_before, r0_after, out, again, tags)
+    _per_antenna(ctx, "est_occ_per_antenna", out, want, srow, tags)
     name = "est_occ_same_shift" if same else "est_occ_exact"
     ctx.close(name, float(np.linalg.norm(out - want)), 1e-10 * scale,
               "N=%d root=%d shift=%d cover=%r nr=%d K=%d L=%d extra_dim=%r "
